@@ -13,34 +13,46 @@ CHECKS = {
         note="Trusted: the pyvc VC generator and its Python-subset semantics, z3/cvc5, specs/evm_word.py, z3py operator coercions, z3.simplify. Assumed: integer/SMT-LIB bridge of the word spec; EXP as an uninterpreted function shared by code and spec; generator/worklist protocol of SEVM.run outside the arms.",
         technique="contracts on the real functions, VCs from the AST (pyvc), z3 + cvc5",
     ),
+    "C02": dict(
+        text="Deductive (sigma-coverage): with the path condition PC and each branching condition as arbitrary truth values under an arbitrary valuation, the real bodies of SEVM.jumpi, Exec.check/quick_custom_check, Exec.select, SEVM.calldataload, handle_insufficient_fund_case, transfer_value, resolve_address_alias and the symbolic-JUMP arm of SEVM.run are executed from the AST for every solver answer (sat/unsat/unknown), visit count, --loop value and target validity, and the VCs `PC and <direction of this input> => some successor stands for it, or the cut is logged, or the state ends with that direction's EVM error` are discharged; an `unsat` answer is only accepted with a reason that excludes the query under PC (solver, negation present, literally false, or the documented hash-range pattern, itself an SMT lemma); successors carry exactly the branch condition; balances are updated pointwise. One genuine defect is recorded as a known finding (alias resolution excludes the test contract's own address) with the complement region proved.",
+        ref="DESIGN.md 4/C02 and 11",
+        note="Trusted: pyvc, z3. Assumed: create_branch by contract (parent path + pending condition); the worklist/activation discipline of SEVM.run (every pushed state is later popped, activated and run) is NOT under contract, so this is per-unit coverage, not a whole-exploration theorem; hash range/injectivity and MAX_ETH are the documented modelling assumptions; assert/assume arms are proved in the C13 pack; arith axioms in the C06 pack.",
+        technique="sigma-coverage VCs generated from the real source AST (pyvc) with the solver as a contract, z3",
+    ),
+    "C10": dict(
+        text="Deductive: with a ghost warning log as the observable, the real bodies are executed from the AST and it is proved that (jumpi) for every solver answer, visit count and --loop value a direction that is not proved infeasible and not followed is recorded in bounded_loops, a decided condition is never cut, counters advance; (run) a state is discarded iff --depth is set and exceeded and then a warning naming --depth is logged; an unsupported feature ends the path stuck and the state is still reported; (run_test) the loop is left iff --width is set and reached, with a warning; stuck paths are kept unless proved infeasible; (run_test, setup, run_target_function) non-empty bounded_loops of the engine that ran => LOOP_BOUND warning; stuck calls in invariant testing are logged.",
+        ref="DESIGN.md 4/C10 and 11",
+        note="Trusted: pyvc, z3. Assumed: rendering and the duplicate filter of halmos.logs are not modelled (observable = the call); the verdict consequence of a stuck path is the C05 proof; whole-loop orchestration of SEVM.run is not under contract; run_target_function's warning is emitted when its generator is consumed to the end.",
+        technique="fragment/function VCs generated from the real source AST (pyvc) with a ghost warning log, symbolic limits and counters, z3 LIA",
+    ),
     "C19": dict(
-        text="Deductive: insn_len against N(0,w) on the full opcode domain; Contract.__get_jumpdests against the Yellow-Paper D_J by a loop invariant (arbitrary code length and contents, concrete prefix / symbolic bytes, PUSH data straddling the fast-path boundary), with a variant for termination; valid_jumpdests caching; decode past the end = STOP. PUSH operand extraction, slices and byte reads are a bounded stand-in (exhaustive short codes natively against specs/dj.py) reported separately and never counted as proved.",
+        text="Deductive: insn_len against N(0,w) on the full opcode domain; Contract.__get_jumpdests against the Yellow-Paper D_J by a loop invariant (arbitrary code length and contents, concrete prefix / symbolic bytes, PUSH data straddling the fast-path boundary), with a variant for termination; valid_jumpdests caching; decode past the end = STOP. the jump-destination checks of sevm.py (JUMP arm, concrete JUMPI arm, SEVM.jumpi for every solver answer) against an arbitrary destination set: execution continues at a target only if it is valid, a genuine JUMPDEST is never rejected, an invalid one ends that direction with InvalidJumpDestError. PUSH operand extraction, slices and byte reads are a bounded stand-in (exhaustive short codes natively against specs/dj.py) reported separately and never counted as proved.",
         ref="DESIGN.md 4/C19",
-        note="Trusted: pyvc, z3, specs/dj.py. Assumed: flat byte-array contract of bytes/ByteVec __getitem__/__len__ (ghost sequence); Contract invariant _fastcode = concrete first chunk of _code; with symbolic bytes only soundness (subset of D_J) is proved. Jump checks inside sevm.py use the proved set through `in` only and are not separately under contract.",
+        note="Trusted: pyvc, z3, specs/dj.py. Assumed: flat byte-array contract of bytes/ByteVec __getitem__/__len__ (ghost sequence); Contract invariant _fastcode = concrete first chunk of _code; with symbolic bytes only soundness (subset of D_J) is proved. Exec.check / create_branch / Exec.advance are used through their contracts in the jump-check proofs.",
         technique="loop-invariant VCs generated from the AST (pyvc), z3; bounded native enumeration as labelled stand-in",
     ),
     "C18": dict(
-        text="Deductive: Config.value_with_source against the precedence statement by a loop invariant over a parent chain of arbitrary length (maximal source wins, most recent layer among equals, None only if unset everywhere); __getattribute__ reads its first component; resolved_solver_command prefers --solver-command iff its source >= that of --solver (all source pairs symbolically); with_devdoc / with_natspec add exactly one layer with the right source tag or return the input; load_config layer order. Structured-option round trips (Parse*.parse/unparse, strings and floats) are a bounded stand-in reported separately.",
+        text="Deductive: Config.value_with_source against the precedence statement by a loop invariant over a parent chain of arbitrary length (maximal source wins, most recent layer among equals, None only if unset everywhere); __getattribute__ reads its first component; resolved_solver_command prefers --solver-command iff its source >= that of --solver (all source pairs symbolically); with_devdoc / with_natspec add exactly one layer with the right source tag or return the input; load_config layer order; with_overrides stores every given override unchanged whatever its truthiness and rejects unknown options; TomlParser.parse_dict sends every value of a structured option through its parser (so it is validated and means what the command line means) for every TOML value kind, and rejects malformed section layouts. Structured-option round trips (Parse*.parse/unparse, strings and floats) are a bounded stand-in reported separately.",
         ref="DESIGN.md 4/C18",
         note="Trusted: pyvc, z3. Assumed: ghost-layer model of the parent chain (every layer has a real source 1..5), IntEnum compares as int, lru_cache transparent; callees replaced by contracts in caller proofs (get_solver_command, parse_devdoc, parse_natspec, arg_parser, toml parsing). Per-contract/function scoping of annotations in run_tests is not under contract.",
         technique="loop-invariant and call-site VCs generated from the AST (pyvc), z3; bounded grammar enumeration as labelled stand-in",
     ),
     "C11": dict(
-        text="Deductive over a finite domain + SMT: for every f_evm_* abstraction symbol halmos.sevm declares (found by introspection on every run), the query text the real Path.to_smt2 produces is passed through the real refine, parsed by z3, and proved for all 256/264/512-bit operands to define the symbol as its exact EVM operation (division/remainder by zero = 0), with exp left uninterpreted and the rest of the query and the assertion ids unchanged; Path.to_smt2 (every condition asserted once, in order, tracked under its id iff caching, self.solver never read) and dump (file structure) by symbolic execution of their AST; named-assertion equisatisfiability lemma.",
+        text="Deductive over a finite domain + SMT: for every f_evm_* abstraction symbol halmos.sevm declares (found by introspection on every run), the query text the real Path.to_smt2 produces is passed through the real refine, parsed by z3, and proved for all 256/264/512-bit operands to define the symbol as its exact EVM operation (division/remainder by zero = 0), with exp left uninterpreted and the rest of the query and the assertion ids unchanged; the same for every pair of symbols and all symbols together in one query; Path.to_smt2 (every condition asserted once, in order, tracked under its id iff caching, never serialising self.solver, which may hold only the sliced subset), Path.append and Path.extend_path (the child carries every parent condition; the solver gets all of them or exactly the sliced subset) and dump (file structure) by symbolic execution of their AST; named-assertion equisatisfiability lemma.",
         ref="DESIGN.md 4/C11",
-        note="Trusted: pyvc, z3 (parser + QF_BV), specs/evm_word.py. Assumed: the regexes of refine do not touch other query text (checked on the generated queries only); Path.to_smt2 is proved for n <= 3 opaque conditions (bounded in n); that self.conditions holds every accumulated constraint (Path.append/extend_path) is not under contract.",
+        note="Trusted: pyvc, z3 (parser + QF_BV), specs/evm_word.py. Assumed: the regexes of refine do not touch other query text (checked on the generated queries only); Path.to_smt2 / extend_path are proved for n <= 3 conditions (bounded in n; the bodies treat conditions opaquely); that every caller adds constraints through Path.append is not under contract.",
         technique="postconditions of the real functions: ground evaluation over the finite symbol domain + SMT validity for all operands; AST symbolic execution (pyvc)",
     ),
     "C13": dict(
-        text="Deductive + ground: every entry of the assert-cheatcode table (read from the AST) has key = keccak4(signature), is a Forge-std assert form, and the table is complete (76 forms); every *_sig constant equals keccak4 of the signature in its comment; for every table signature the real mk_assert_handler -> vm_assert_* -> mk_cond chain is symbolically executed and its condition proved equivalent, for all 256-bit operands, to the relation the signature names (unsigned/signed, bit equality, length-sensitive equality for bytes/string/arrays with symbolic contents), with the message read from the right slot; the assert and assume arms of hevm_cheat_code.handle are executed as fragments for all 3x3 solver answers (failing state exactly when not proved impossible, carrying exactly Not(cond); assume appends exactly word != 0).",
+        text="Deductive + ground: every entry of the assert-cheatcode table (read from the AST) has key = keccak4(signature), is a Forge-std assert form, and the table is complete (76 forms); every *_sig constant equals keccak4 of the signature in its comment; for every table signature the real mk_assert_handler -> vm_assert_* -> mk_cond chain is symbolically executed and its condition proved equivalent, for all 256-bit operands, to the relation the signature names (unsigned/signed, bit equality, length-sensitive equality for bytes/string/arrays), for symbolic operands and for concrete operands of arbitrary content (symbolic python bytes), with the message read from the right slot; the assert and assume arms of hevm_cheat_code.handle are executed as fragments for all 3x3 solver answers (failing state exactly when not proved impossible, carrying exactly Not(cond); assume appends exactly word != 0).",
         ref="DESIGN.md 4/C13",
         note="Trusted: pyvc, z3, eth_hash keccak, the grammar of Forge-std assert forms written in the sidecar. Assumed: calldata extractors replaced by their contracts (ByteVec slicing not proved); bytes/array lengths from a small set (contents symbolic); Exec.check abstracted by its answer; is_global_fail_set / nested-call propagation not under contract.",
         technique="ground table obligations + AST symbolic execution (pyvc) with callee contracts, z3",
     ),
     "C05": dict(
-        text="Deductive: the verdict if/elif chain of run_test (taken from the AST) is executed with symbolic non-negative counts and its exit code proved equal to the verdict table for ALL (#sat, #err, #unknown, #stuck, #normal): PASS iff nothing failed and some path succeeded, else FAIL > ERROR > TIMEOUT > STUCK > REVERT_ALL; the counts are read only through Counter over ctx.solver_outputs (permutation invariant, so the verdict depends on the multiset of outcomes only); PASS = 0 and every other code non-zero; solve_low_level maps a TimeoutExpired to unknown, never unsat. SolverOutput.from_result is checked over a listed family of solver outputs (exact first line only; empty/garbage/prefix/case variants are err).",
+        text="Deductive: the verdict if/elif chain of run_test (taken from the AST) is executed with symbolic non-negative counts and its exit code proved equal to the verdict table for ALL (#sat, #err, #unknown, #stuck, #normal): PASS iff nothing failed and some path succeeded, else FAIL > ERROR > TIMEOUT > STUCK > REVERT_ALL; the counts are read only through Counter over ctx.solver_outputs (permutation invariant, so the verdict depends on the multiset of outcomes only); PASS = 0 and every other code non-zero; solve_low_level maps a TimeoutExpired to unknown, never unsat; the body of run_test's loop over yielded paths classifies each path (assertion-violating => handed to the solver once; stuck => kept unless the solver says unsat; success => normal; --width); _solve_end_to_end_callback records exactly one outcome per job, valid/invalid models go to the right list, an empty or missing unsat core is never recorded, early exit only after a valid counterexample; _get_solver_output turns shutdown/exceptions into err; _main's accounting keeps failed = found - passed and the exit code is 0 iff some test ran and none failed. SolverOutput.from_result is checked over a listed family of solver outputs (exact first line only; empty/garbage/prefix/case variants are err).",
         ref="DESIGN.md 4/C05",
-        note="Trusted: pyvc, z3, the verdict table transcription. Assumed: Counter semantics; one element of solver_outputs per submitted job regardless of completion order (thread pool + GIL atomicity); not under contract: _solve_end_to_end_callback, early-exit, stuck confirmation, _main exit code. from_result obligations cover the listed output family, not all strings.",
+        note="Trusted: pyvc, z3, the verdict table transcription. Assumed: Counter semantics; one element of solver_outputs per submitted job regardless of completion order (thread pool + GIL atomicity); the thread pool's delivery of callbacks is assumed. from_result obligations cover the listed output family, not all strings.",
         technique="fragment VCs generated from the AST (pyvc) over symbolic counts, z3 LIA; ground family for string classification",
     ),
 }
